@@ -280,7 +280,8 @@ class C02(Check):
                'cssutils/css/cssstyledeclaration.py', 'cssutils/css/property.py', 'cssutils/css/value.py',
                'cssutils/css/cssmediarule.py', 'cssutils/css/cssimportrule.py', 'cssutils/css/cssnamespacerule.py',
                'cssutils/css/csspagerule.py', 'cssutils/css/marginrule.py', 'cssutils/css/cssfontfacerule.py',
-               'cssutils/css/csscharsetrule.py', 'cssutils/css/cssunknownrule.py', 'cssutils/css/selectorlist.py',
+               'cssutils/css/csscharsetrule.py', 'cssutils/css/cssunknownrule.py', 'cssutils/css/cssvariablesrule.py',
+               'cssutils/css/cssvariablesdeclaration.py', 'cssutils/css/selectorlist.py',
                'cssutils/util.py', 'cssutils/helper.py', 'cssutils/tokenize2.py')
     rule = ('(1) abstract sheets of the documented grammar (c02_gen: style, @media nested, @import, @namespace, @page with '
             'margin boxes, @font-face, @charset, unknown at-rules, comments; CSS3 selectors; values of every component kind '
@@ -408,6 +409,12 @@ class C02(Check):
             rendered, erased, struct = out[3 * idx: 3 * idx + 3]
             ctx.case(key=('struct', text), nontrivial=level > 0, kind='struct-l%d' % level,
                      sample={'text': text[:300]} if idx < 3 else None)
+            if any(v[0] == 'variables' for v in ss.get('variables', ())):
+                ctx.count('struct-with-@variables')
+            if any(i[0] == 'import' and i[6] for i in ss['imports']):
+                ctx.count('struct-with-named-@import')
+            if any(r[0] == 'media' and r[5] for r in ss['rules']):
+                ctx.count('struct-with-named-@media')
             want = S.erase(ss)
             real = real_struct(text)
             if isinstance(real, tuple):
@@ -644,6 +651,11 @@ def _real_rules(rules):
             out.append(['namespace', r.prefix, r.namespaceURI])
         elif t == r.CHARSET_RULE:
             out.append(['charset', r.encoding])
+        elif t == r.VARIABLES_RULE:
+            # the mapping the DOM shows, in the order of the declaration's seq: normalised name -> value
+            from cssutils.helper import normalize
+            out.append(['variables', [[normalize(i.value[0]), norm_text(i.value[1].cssText)]
+                                      for i in r.variables.seq if i.type == 'var']])
         else:
             out.append(['other', t])
     return out
@@ -706,6 +718,8 @@ def model_abstract(model, toks):
                     'margins': [{'name': m['name'], 'items': [item(i) for i in m['items']]} for m in r['margins']]}
         if k == 'import':
             return {'k': 'import', 'href': r['href'], 'mq': tl(r['mq']) if r['mq'] is not None else None, 'name': r['name']}
+        if k == 'variables':
+            return {'k': 'variables', 'vars': [{'name': v['name'], 'value': tl(v['value'])} for v in r['vars']]}
         return r
 
     return [rule(r) for r in model]
@@ -784,6 +798,13 @@ def model_dom(model, toks, ns=None):
                 out.append(['namespace', dec(r['pfx']), dec(r['uri'])])
             elif k == 'charset':
                 out.append(['charset', dec(r['enc'])])
+            elif k == 'variables':
+                vs = []
+                for v in r['vars']:
+                    pv = css.PropertyValue()
+                    pv.cssText = tl(v['value'])
+                    vs.append([dec(v['name']), norm_text(pv.cssText) if pv.wellformed else None])
+                out.append(['variables', vs])
             else:
                 out.append(['other', r.get('kind')])
         return out
